@@ -52,11 +52,13 @@ class SimFuture(cf.Future):
         self._tid = tid
 
     def result(self, timeout=None):
-        self._sim.block_until(lambda: self.done(), f"result({self._tid})")
+        if not self._sim.block_until(lambda: self.done(), f"result({self._tid})", timeout):
+            raise cf.TimeoutError()
         return super().result(timeout=0)
 
     def exception(self, timeout=None):
-        self._sim.block_until(lambda: self.done(), f"exception({self._tid})")
+        if not self._sim.block_until(lambda: self.done(), f"exception({self._tid})", timeout):
+            raise cf.TimeoutError()
         return super().exception(timeout=0)
 
 
@@ -73,6 +75,7 @@ class Sim:
         self.prefinished: List[int] = []
         self.max_inflight = 0
         self.eager_bias = eager_bias
+        self.timeouts_fired = 0
 
     # -- stepping ---------------------------------------------------------------------------
     def _options(self):
@@ -107,10 +110,20 @@ class Sim:
             task.publish()
         return True
 
-    def block_until(self, cond: Callable[[], bool], where: str) -> None:
+    def block_until(self, cond: Callable[[], bool], where: str, timeout=None) -> bool:
+        """Advance the pool until `cond` holds.  With a timeout the scheduler may also let the timeout fire
+        first (a slow branch): returns False in that case.  Virtual time: a timeout is just another event."""
         while not cond():
+            if timeout is not None and self._options() and self.decider.choose(4, where + ".timeout?") == 3:
+                self.timeouts_fired += 1
+                self.log.add("sched.timeout", {"where": where})
+                return False
             if not self.step(False, where):
+                if timeout is not None:
+                    self.timeouts_fired += 1
+                    return False
                 raise SimDeadlock(f"caller blocked in {where} but no task can make progress")
+        return True
 
     def background(self, where: str, max_steps: int = 64) -> None:
         """Workers race ahead while the caller is busy: zero or more steps, chosen by the decider."""
@@ -221,7 +234,8 @@ def sim_as_completed(fs, timeout=None):
             sim.background("as_completed.between")
         pending = list(rest)
         while pending:
-            sim.block_until(lambda: any(f.done() for f in pending), "as_completed.wait")
+            if not sim.block_until(lambda: any(f.done() for f in pending), "as_completed.wait", timeout):
+                raise cf.TimeoutError(f"{len(pending)} (of {len(fs)}) futures unfinished")
             # completion order among those that finished meanwhile
             ready = [f for f in pending if f.done()]
             ready.sort(key=lambda f: sim.finish_order.index(f._tid) if getattr(f, "_tid", None) in sim.finish_order else 1 << 30)
@@ -238,14 +252,16 @@ def sim_as_completed(fs, timeout=None):
 def sim_wait(fs, timeout=None, return_when=cf.ALL_COMPLETED):
     sim = _CURRENT
     fs = list(dict.fromkeys(fs))
+    from concurrent.futures._base import DoneAndNotDoneFutures
+
     if return_when == cf.FIRST_COMPLETED:
-        sim.block_until(lambda: any(f.done() for f in fs), "wait.first")
+        sim.block_until(lambda: any(f.done() for f in fs), "wait.first", timeout)
     elif return_when == cf.FIRST_EXCEPTION:
-        sim.block_until(lambda: all(f.done() for f in fs) or any(f.done() and not f.cancelled() and f.exception(0) is not None for f in fs), "wait.exc")
+        sim.block_until(lambda: all(f.done() for f in fs) or any(f.done() and not f.cancelled() and cf.Future.exception(f, 0) is not None for f in fs), "wait.exc", timeout)
     else:
-        sim.block_until(lambda: all(f.done() for f in fs), "wait.all")
+        sim.block_until(lambda: all(f.done() for f in fs), "wait.all", timeout)
     done = {f for f in fs if f.done()}
-    return cf.DoneAndNotDoneFutures(done, set(fs) - done)
+    return DoneAndNotDoneFutures(done, set(fs) - done)
 
 
 @contextlib.contextmanager
